@@ -66,6 +66,8 @@ def build_xml(model, acts, inj):
     kw['joints_override'] = {site: js}
   elif kind == 'transmission':
     extra_act = f'    <adhesion name="AX" body="L{site}" ctrlrange="0 1"/>\n'
+  elif kind == 'jointinparent':
+    extra_act = f'    <motor name="AX" jointinparent="J{site[0]}_{site[1]}"/>\n'
   elif kind == 'gaintype':
     a = actuators[site - 1]
     a['kind'] = 'general'
@@ -95,7 +97,10 @@ def eval_case(case):
   xml = build_xml(case['model'], case['acts'], case['inj'])
   out = {'xml': xml, 'mj_ok': True, 'pipes': {}}
   try:
-    mujoco.MjModel.from_xml_string(xml)
+    mjm = mujoco.MjModel.from_xml_string(xml)
+    mjd = mujoco.MjData(mjm)
+    mujoco.mj_forward(mjm, mjd)
+    out['mj_xpos'] = mjd.xpos[1:].tolist()
   except Exception as e:  # the reference compiler itself refuses the document: never reaches brax
     out['mj_ok'] = False
     out['mj_err'] = str(e)[:200]
@@ -262,6 +267,13 @@ def run(ctx):
         diffs.append('init_q')
       if any(exp['parents'][i] >= i for i in range(len(exp['parents']))):
         diffs.append('parent_order')
+      # the initial pose (init at init_q) agrees with the source model at its reference configuration
+      for pn, xp in r.get('init_x', {}).items():
+        if np.asarray(xp).shape != np.asarray(r['mj_xpos']).shape or np.max(np.abs(np.asarray(xp) - np.asarray(r['mj_xpos']))) > 1e-5:
+          diffs.append(f'initial_link_positions[{pn}]')
+          got['init_x'] = r['init_x']
+          exp['init_x'] = r['mj_xpos']
+          break
       if diffs:
         ctx.violation(f'loaded system disagrees with the source model on {diffs}: got {got}, expected {exp} init_q {iq}',
                       info, {'call': 'mjcf.loads', 'predicate': 'structure'})
